@@ -177,6 +177,15 @@ func (w *World) Render() map[string]string {
 	}
 	for _, k := range sortedKeys(w.RawFiles) {
 		v := w.RawFiles[k]
+		if k == "p/zz_generic.go" {
+			// its derive calls follow the prefix map like every other call of the world
+			for _, pl := range []string{"equal", "gostring", "compare"} {
+				v = strings.ReplaceAll(v, PluginPrefix[pl]+"Gen(", "\x00"+pl+"\x00Gen(")
+			}
+			for _, pl := range []string{"equal", "gostring", "compare"} {
+				v = strings.ReplaceAll(v, "\x00"+pl+"\x00", w.prefixOf(pl))
+			}
+		}
 		if strings.HasPrefix(k, "p/") && strings.HasPrefix(v, "package p\n") {
 			v = "package " + pname + "\n" + strings.TrimPrefix(v, "package p\n")
 		}
